@@ -25,6 +25,8 @@ type FuncVerifier struct {
 	fnWrites   []string
 	cover      bool // also emit cover obligations (goal false at every return / loop body entry)
 
+	cutAt map[ssa.Instruction][]*CutSpec // lemmas to prove just before an instruction
+
 	obls []*Obligation
 	errs []string
 }
@@ -34,6 +36,7 @@ func NewFuncVerifier(w *World, fn *ssa.Function, pass Pass) *FuncVerifier {
 		loopBody: map[*ssa.BasicBlock]map[*ssa.BasicBlock]bool{}, loopSrc: map[*ssa.BasicBlock]string{}, siteLabels: map[ssa.Instruction]string{}}
 	fv.findLoops()
 	fv.labelSites()
+	fv.findCuts()
 	fv.fnWrites = sortedHeapNames(w.writes[fn])
 	return fv
 }
@@ -94,6 +97,67 @@ func (fv *FuncVerifier) findLoops() {
 				fv.loopSrc[fv.headers[i]] = fmt.Sprintf("%s:%d", shortFile(p.Filename), p.Line)
 			}
 		}
+	}
+}
+
+// findCuts resolves `before "<statement text>"` anchors to the first SSA
+// instruction generated for that statement.
+func (fv *FuncVerifier) findCuts() {
+	fv.cutAt = map[ssa.Instruction][]*CutSpec{}
+	if fv.spec == nil || len(fv.spec.Cuts) == 0 {
+		return
+	}
+	syn := fv.fn.Syntax()
+	if syn == nil {
+		return
+	}
+	for _, c := range fv.spec.Cuts {
+		var matches []ast.Stmt
+		ast.Inspect(syn, func(n ast.Node) bool {
+			st, ok := n.(ast.Stmt)
+			if !ok {
+				return true
+			}
+			if _, isBlock := st.(*ast.BlockStmt); isBlock {
+				return true
+			}
+			p := fv.w.fset.Position(st.Pos())
+			src := readFileCached(p.Filename)
+			e := fv.w.fset.Position(st.End())
+			if p.Offset < len(src) && e.Offset <= len(src) {
+				text := normSpace(src[p.Offset:e.Offset])
+				if strings.HasPrefix(text, normSpace(c.Text)) {
+					matches = append(matches, st)
+				}
+			}
+			return true
+		})
+		if len(matches) != 1 {
+			fv.errs = append(fv.errs, fmt.Sprintf("STALE: before %q matches %d statements in %s", c.Text, len(matches), funcKey(fv.fn)))
+			continue
+		}
+		st := matches[0]
+		var best ssa.Instruction
+		for _, b := range fv.fn.Blocks {
+			for _, in := range b.Instrs {
+				if _, isDbg := in.(*ssa.DebugRef); isDbg {
+					continue
+				}
+				if _, isPhi := in.(*ssa.Phi); isPhi {
+					continue
+				}
+				if in.Pos() >= st.Pos() && in.Pos() < st.End() {
+					if best == nil || in.Pos() < best.Pos() {
+						best = in
+					}
+				}
+			}
+		}
+		if best == nil {
+			fv.errs = append(fv.errs, fmt.Sprintf("STALE: before %q: no instruction found", c.Text))
+			continue
+		}
+		fv.cutAt[best] = append(fv.cutAt[best], c)
 	}
 }
 
@@ -706,9 +770,25 @@ func (fv *FuncVerifier) encodeFunction(e *Enc) {
 		if fv.isHeader(b) {
 			fv.enterLoop(e, b)
 		}
+		fv.afterLoops(e, b)
 		for i, in := range b.Instrs {
 			e.curInstr = in
 			e.curIdx = i
+			for ci, c := range fv.cutAt[in] {
+				env := fv.siteEnv(e, b, i)
+				for k, cl := range c.Lemmas {
+					if !fv.pass.Active(cl.Tags) {
+						continue
+					}
+					t, _, err := env.elab(cl.E)
+					if err != nil {
+						e.errorf("lemma %s: %v", cl.Loc(), err)
+						continue
+					}
+					e.oblige("lemma", fmt.Sprintf("lemma#%d.%d(before %q)", ci, k, c.Text), t, cl.Tags, cl.Src)
+					e.assume(fmt.Sprintf("(=> %s %s)", e.reach[b], t))
+				}
+			}
 			e.instr(in)
 		}
 		snap := map[string]int{}
@@ -721,6 +801,57 @@ func (fv *FuncVerifier) encodeFunction(e *Enc) {
 				fv.checkInvariants(e, b, s, fv.edgeCond(e, b, s))
 			}
 		}
+	}
+}
+
+// afterLoops: block b is an exit target of some loops: their `after` lemmas are
+// proved here (in the state on entry to b) and then assumed, which splits long
+// post-loop arguments into steps.
+func (fv *FuncVerifier) afterLoops(e *Enc, b *ssa.BasicBlock) {
+	if fv.spec == nil {
+		return
+	}
+	for _, h := range fv.headers {
+		ls := fv.loopSpec(h)
+		if ls == nil || len(ls.After) == 0 || fv.loopBody[h][b] {
+			continue
+		}
+		isExit := false
+		for _, p := range b.Preds {
+			if fv.loopBody[h][p] {
+				isExit = true
+			}
+		}
+		if !isExit {
+			continue
+		}
+		nphi := 0
+		for _, in := range b.Instrs {
+			if _, ok := in.(*ssa.Phi); ok {
+				nphi++
+			} else {
+				break
+			}
+		}
+		env := fv.siteEnv(e, b, nphi)
+		env.preVer = e.loopPre[h]
+		save := e.curInstr
+		if nphi < len(b.Instrs) {
+			e.curInstr = b.Instrs[nphi]
+		}
+		for k, cl := range ls.After {
+			if !fv.pass.Active(cl.Tags) {
+				continue
+			}
+			t, _, err := env.elab(cl.E)
+			if err != nil {
+				e.errorf("after %s: %v", cl.Loc(), err)
+				continue
+			}
+			e.oblige("after", fmt.Sprintf("after#%d/loop%d@%s", k, fv.headerOrd[h], blockLabel(b)), t, cl.Tags, cl.Src)
+			e.assume(fmt.Sprintf("(=> %s %s)", e.reach[b], t))
+		}
+		e.curInstr = save
 	}
 }
 
